@@ -57,7 +57,7 @@ def run(ctx):
     log(f"[T] {nm} merges validated against MergeSem, {n}/{len(runs)} runs accepted")
 
     gp = ctx.path("gated.ndjson")
-    vlib.run_bin("merge_driver", ["gated", "--seed", ctx.seed, "--runs", 18 if ctx.quick else 180, "--out", gp], timeout=900)
+    vlib.run_bin("merge_driver", ["gated", "--seed", ctx.seed, "--runs", 21 if ctx.quick else 210, "--out", gp], timeout=900)
     gev = vlib.read_ndjson(gp)
     gruns = prep(gev)
     realised = sum(1 for e in gev if e.get("ev") == "schedule" and e.get("realised"))
